@@ -83,6 +83,17 @@ mod verif_driver_ops {
                 }
             }
         }
+        // protocol parameters OUTSIDE the range the contract assumes (a fee that does not fit u64): the property quantifies
+        // over every parameter set, so the answer has to be an error, not a panic (debug) or a wrapped fee (release)
+        for (len, a, b) in [(200usize, u64::MAX / 8, 0u64), (1, u64::MAX, 1), (16384, 1u64 << 51, 0), (0, 0, u64::MAX)] {
+            n += 1;
+            let tx = vec![0u8; len];
+            let want = len as u128 * a as u128 + b as u128 + 200_000;
+            match quiet(|| eval_size_fees(&tx, &pp(a, b), None)) {
+                Err(_) => witness("c14_ops/eval_size_fees#arithmetic-overflow", "eval_size_fees", format!("len={len} coefficient={a} constant={b} class=fee-beyond-u64"), "panic (attempt to multiply / add with overflow)".into(), "an error: the linear fee does not fit the ledger's u64"),
+                Ok(r) => if r as u128 != want { witness("c14_ops/eval_size_fees#arithmetic-overflow", "eval_size_fees", format!("len={len} coefficient={a} constant={b} class=fee-beyond-u64"), format!("{r} (wrapped)"), "an error: the linear fee does not fit the ledger's u64") },
+            }
+        }
         println!("VERIF-CASES fn=eval_size_fees n={n}");
     }
 
